@@ -74,22 +74,30 @@ def ancestors(classes, name, seen=None):
 
 
 def check_name_format():
+    """`SecsHandler._generate_sf_callback_name(stream, function)` must produce `s<2 digits>f<2 digits>`: decided semantically - the
+    return expression (pure string formatting of the two parameters: f-string, `str.format` or `%`, any spelling) is evaluated
+    on a table of (stream, function) pairs and compared with the names the `_on_sXXfYY` scan relies on."""
     fn = G.P.find_function(G.parse("secs/handler.py"), "SecsHandler", "_generate_sf_callback_name")
-    rets = [st for st in fn.body if isinstance(st, ast.Return)]
+    body = [st for st in fn.body if not (isinstance(st, ast.Expr) and isinstance(st.value, ast.Constant))]
+    params = [a.arg for a in fn.args.args if a.arg not in ("self", "cls")]
     ok = False
-    if len(rets) == 1 and isinstance(rets[0].value, ast.JoinedStr):
-        parts = []
-        for v in rets[0].value.values:
-            if isinstance(v, ast.Constant):
-                parts.append(v.value)
-            elif isinstance(v, ast.FormattedValue) and isinstance(v.value, ast.Name) and isinstance(v.format_spec, ast.JoinedStr):
-                spec = "".join(x.value for x in v.format_spec.values if isinstance(x, ast.Constant))
-                parts.append("{" + v.value.id + ":" + spec + "}")
-            else:
-                parts.append("?")
-        ok = parts == ["s", "{stream:02d}", "f", "{function:02d}"]
+    if len(body) == 1 and isinstance(body[0], ast.Return) and body[0].value is not None and len(params) == 2:
+        expr = body[0].value
+        allowed = (ast.JoinedStr, ast.FormattedValue, ast.Constant, ast.Name, ast.Load, ast.Call, ast.Attribute, ast.BinOp, ast.Mod,
+                   ast.Add, ast.Tuple, ast.keyword)
+        pure = all(isinstance(n, allowed) for n in ast.walk(expr)) \
+            and all(n.id in params for n in ast.walk(expr) if isinstance(n, ast.Name)) \
+            and all(n.attr in ("format", "zfill", "rjust") for n in ast.walk(expr) if isinstance(n, ast.Attribute))
+        if pure:
+            code = compile(ast.Expression(expr), "<_generate_sf_callback_name>", "eval")
+            table = [(0, 0), (1, 1), (1, 13), (2, 41), (9, 5), (10, 1), (64, 1), (99, 99), (100, 100), (127, 255), (7, 100), (100, 7)]
+            try:
+                ok = all(eval(code, {"__builtins__": {}}, {params[0]: st_, params[1]: fu}) == f"s{st_:02d}f{fu:02d}"  # noqa: S307
+                         for st_, fu in table)
+            except Exception:  # noqa: BLE001
+                ok = False
     if not ok:
-        raise G.P.Untranslatable("SecsHandler._generate_sf_callback_name is not f\"s{stream:02d}f{function:02d}\"")
+        raise G.P.Untranslatable("SecsHandler._generate_sf_callback_name does not produce s<stream:02d>f<function:02d>")
     # CallbackHandler.__contains__ / _call look the delegate up as "_on_" + name
     tree = G.parse("common/callbacks.py")
     for meth in ("__contains__", "_call"):
